@@ -1,6 +1,861 @@
-//! C10 — stub: correspondence harness not built yet.
+//! C10 — garbage collection never removes a needed file and leaves no orphan.
+//!
+//! A. quiescent points of generated histories (rollbacks, delete_all, discarded merges, writer
+//!    drop + reopen): directory file set = files derived from meta.json's segments ∪ {meta.json,
+//!    .managed.json} ∪ lock files, and `.managed.json` = in-memory managed set = existing
+//!    non-dot files.
+//! B. GC forced (VDir hook, same code path as `garbage_collect_files`) at storage operations of
+//!    indexing workers / merge threads / the doc-store compressor, with the living-files
+//!    callback used as a gate that lets the worker run on while GC is between "living computed"
+//!    and "deletes"; checked: every created file is protected by a live SegmentMeta at creation
+//!    (registration-before-create), no delete hits a living file, no later open_read of a needed
+//!    file fails, the history's content is right, and the end state is clean.
+//! C. one complete collection from a state with garbage, optionally with failing deletes,
+//!    compared with the model's `fullGC` (directory, managed set, deleted, failed).
+//! D. a reader in the middle of loading (holding META_LOCK, as `open_segment_readers` does) is
+//!    not broken by commits + merges + GC running meanwhile.
+//! E. recovered crash images (C01 machinery) followed by one commit and one collection:
+//!    quiescent equality, except finding S2 (`.managed.json` rename not synced).
+use super::c01::{self, Hist, Point, Step};
+use crate::dirs::{OpKind, OpRec, VDir};
 use crate::Ctx;
+use serde_json::json;
+use std::collections::{BTreeSet, HashMap, HashSet};
+use std::panic::{catch_unwind, AssertUnwindSafe};
+use std::path::{Path, PathBuf};
+use std::sync::atomic::{AtomicBool, AtomicU64, Ordering};
+use std::sync::{mpsc, Arc, Mutex};
+use std::time::{Duration, Instant};
+use tantivy::directory::{RamDirectory, META_LOCK};
+use tantivy::merge_policy::NoMergePolicy;
+use tantivy::{doc, Directory, Index, IndexWriter};
+
+pub const K_S2: &str = "C10:managed-json-rename-not-synced";
+
+const SEG_SUFFIXES: [&str; 0] = [];
+
+/// both paths belong to the same segment (same uuid prefix)
+fn same_segment(a: &Path, b: &Path) -> bool {
+    let sa = a.to_string_lossy();
+    let sb = b.to_string_lossy();
+    sa.len() >= 32 && sb.len() >= 32 && sa[..32] == sb[..32]
+}
+
+fn is_dot(p: &str) -> bool {
+    p.starts_with('.')
+}
+
+/// files that exist, by POSIX rules, from the operation log: created (open_write / atomic_write)
+/// and not unlinked since. A `RamDirectory` re-creates an unlinked file when a writer that was
+/// still open is flushed (e.g. the detached doc-store compressor of a rolled-back segment); on a
+/// real file system such a write goes to an anonymous inode, so those are not counted as files
+/// (they are counted in the evidence as `ramdirectory-resurrected-after-unlink`).
+fn listing(vdir: &VDir, initial: &[String]) -> BTreeSet<String> {
+    let mut exists: HashMap<String, bool> = initial.iter().map(|p| (p.clone(), true)).collect();
+    vdir.with_state(|s| {
+        for r in &s.log {
+            if !r.ok || r.path.is_empty() {
+                continue;
+            }
+            match r.kind {
+                OpKind::OpenWrite | OpKind::AtomicWrite => {
+                    exists.insert(r.path.clone(), true);
+                }
+                OpKind::Delete => {
+                    exists.insert(r.path.clone(), false);
+                }
+                _ => {}
+            }
+        }
+    });
+    exists.into_iter().filter(|(_, e)| *e).map(|(p, _)| p).collect()
+}
+
+/// paths the RamDirectory holds although the log says they were unlinked
+fn resurrected(vdir: &VDir, initial: &[String]) -> usize {
+    let posix = listing(vdir, initial);
+    let seen: HashSet<String> = vdir.with_state(|s| s.log.iter().filter(|r| !r.path.is_empty()).map(|r| r.path.clone()).collect());
+    seen.iter().filter(|p| !posix.contains(*p) && vdir.inner.exists(Path::new(p)).unwrap_or(false)).count()
+}
+
+fn managed_json(vdir: &VDir) -> Result<BTreeSet<String>, String> {
+    let raw = vdir.raw(Path::new(c01::MANAGED)).ok_or(".managed.json missing")?;
+    let v: Vec<String> = serde_json::from_slice(&raw).map_err(|e| format!(".managed.json unreadable: {e}"))?;
+    Ok(v.into_iter().collect())
+}
+
+/// the quiescent equalities of the property, on the live directory
+fn check_quiescent(ctx: &mut Ctx, vdir: &VDir, index: &Index, what: &str, case: &serde_json::Value) -> bool {
+    let d = listing(vdir, &[]);
+    let meta_bytes = match vdir.raw(Path::new(c01::META)) {
+        Some(b) => b,
+        None => {
+            ctx.report.violation("oracle", "C10:meta-json-missing", format!("{what}: meta.json does not exist"), case.clone());
+            return false;
+        }
+    };
+    let files = match c01::meta_refs(&meta_bytes) {
+        Ok((_, f)) => f,
+        Err(e) => {
+            ctx.report.violation("oracle", "C10:meta-json-unreadable", format!("{what}: {e}"), case.clone());
+            return false;
+        }
+    };
+    let mut expected: BTreeSet<String> = files.into_iter().collect();
+    expected.insert(c01::META.into());
+    expected.insert(c01::MANAGED.into());
+    let locks: BTreeSet<String> = d.iter().filter(|p| c01::is_lock_file(p)).cloned().collect();
+    expected.extend(locks);
+    let mut ok = true;
+    let orphans: Vec<&String> = d.difference(&expected).collect();
+    let missing: Vec<&String> = expected.difference(&d).collect();
+    if !missing.is_empty() {
+        ok = false;
+        ctx.report.violation("oracle", "C10:needed-file-missing", format!("{what}: files referenced by meta.json do not exist: {missing:?}"), case.clone());
+    }
+    if !orphans.is_empty() {
+        ok = false;
+        ctx.report.violation("oracle", "C10:orphan-files", format!("{what}: files that belong to no committed segment remain after GC: {orphans:?}"), case.clone());
+    }
+    let existing_managed: BTreeSet<String> = d.iter().filter(|p| !is_dot(p)).cloned().collect();
+    match managed_json(vdir) {
+        Ok(m) if m == existing_managed => {}
+        Ok(m) => {
+            ok = false;
+            ctx.report.violation("oracle", "C10:managed-json-differs", format!("{what}: .managed.json lists {:?} extra and lacks {:?}", m.difference(&existing_managed).collect::<Vec<_>>(), existing_managed.difference(&m).collect::<Vec<_>>()), case.clone());
+        }
+        Err(e) => {
+            ok = false;
+            ctx.report.violation("oracle", "C10:managed-json-differs", format!("{what}: {e}"), case.clone());
+        }
+    }
+    let mem: BTreeSet<String> = index.directory().list_managed_files().iter().map(|p| p.to_string_lossy().to_string()).collect();
+    if mem != existing_managed {
+        ok = false;
+        ctx.report.violation("oracle", "C10:managed-set-differs", format!("{what}: in-memory managed set differs from existing files: extra {:?}, lacking {:?}", mem.difference(&existing_managed).collect::<Vec<_>>(), existing_managed.difference(&mem).collect::<Vec<_>>()), case.clone());
+    }
+    ctx.report.count(if ok { "quiescent-check:ok" } else { "quiescent-check:failed" });
+    ok
+}
+
+// ------------------------------------------------------------------------------------------
+// A + B: histories, optionally with forced GC
+// ------------------------------------------------------------------------------------------
+
+struct Forcer {
+    index: Mutex<Option<Index>>,
+    busy: AtomicBool,
+    worker_ops: AtomicU64,
+    stride: u64,
+    phase: u64,
+    forced: AtomicU64,
+    gate_progress: AtomicU64,
+    transient: AtomicU64,
+    deleted: Mutex<Vec<String>>,
+    problems: Mutex<Vec<(String, String)>>,
+    threads: Mutex<Vec<std::thread::JoinHandle<()>>>,
+    enabled: AtomicBool,
+}
+
+fn is_worker_thread(t: &str) -> bool {
+    t.starts_with("thrd-tantivy-index") || t.starts_with("merge_thread") || t.starts_with("docstore-compressor")
+}
+
+fn make_hook(fo: Arc<Forcer>) -> crate::dirs::Hook {
+    Arc::new(move |rec: &OpRec| {
+        if rec.thread.starts_with("gc-forcer") || rec.path.is_empty() || c01::is_lock_file(&rec.path) {
+            return;
+        }
+        let index = match fo.index.lock().unwrap().clone() {
+            Some(i) => i,
+            None => return,
+        };
+        let managed_type = !is_dot(&rec.path);
+        // discipline / safety, observed at the instant of the operation
+        if rec.kind == OpKind::OpenWrite && managed_type {
+            let living = tantivy::verif::c10_living_files(&index);
+            if !living.contains(&PathBuf::from(&rec.path)) {
+                fo.problems.lock().unwrap().push(("C10:file-created-outside-living".into(), format!("{} is opened for writing by {} while no live SegmentMeta lists it", rec.path, rec.thread)));
+            }
+        }
+        if rec.kind == OpKind::Delete && managed_type {
+            let living = tantivy::verif::c10_living_files(&index);
+            if living.contains(&PathBuf::from(&rec.path)) || rec.path == c01::META {
+                // `Index::searchable_segment_ids()` / `load_metas()` (called by the history itself and
+                // by IndexWriter::new) deserialise meta.json into SegmentMeta objects that live for
+                // microseconds and never open a file; if they were parsed from bytes read just
+                // before the commit they can "protect" a file GC has already selected. Only a
+                // protection that persists is a needed file.
+                let mut persistent = true;
+                if rec.path != c01::META {
+                    for _ in 0..6 {
+                        std::thread::sleep(Duration::from_millis(3));
+                        if !tantivy::verif::c10_living_files(&index).contains(&PathBuf::from(&rec.path)) {
+                            persistent = false;
+                            break;
+                        }
+                    }
+                }
+                if persistent {
+                    fo.problems.lock().unwrap().push(("C10:gc-deleted-needed-file".into(), format!("{} deleted by {} while a live SegmentMeta lists it", rec.path, rec.thread)));
+                } else {
+                    fo.transient.fetch_add(1, Ordering::SeqCst);
+                }
+            }
+        }
+        if !fo.enabled.load(Ordering::SeqCst) || !is_worker_thread(&rec.thread) || !rec.kind.is_mutation() {
+            return;
+        }
+        if rec.kind == OpKind::AtomicWrite {
+            // `.managed.json` is rewritten while the managed write lock is held: GC cannot run here
+            return;
+        }
+        let n = fo.worker_ops.fetch_add(1, Ordering::SeqCst);
+        if n % fo.stride != fo.phase || fo.busy.swap(true, Ordering::SeqCst) {
+            return;
+        }
+        fo.forced.fetch_add(1, Ordering::SeqCst);
+        let (tx, rx) = mpsc::channel::<()>();
+        let fo2 = fo.clone();
+        let h = std::thread::Builder::new().name("gc-forcer".into()).spawn(move || {
+            let mut idx = index.clone();
+            let idx2 = index.clone();
+            let start = fo2.worker_ops.load(Ordering::SeqCst);
+            let fo3 = fo2.clone();
+            // same code path as segment_updater.rs::garbage_collect_files
+            let res = idx.directory_mut().garbage_collect(move || {
+                let mut living = tantivy::verif::c10_living_files(&idx2);
+                living.insert(PathBuf::from(c01::META));
+                // gate: living is computed; let the worker run on before the deletes
+                let _ = tx.send(());
+                let t0 = Instant::now();
+                while fo3.worker_ops.load(Ordering::SeqCst) < start + 6 && t0.elapsed() < Duration::from_millis(20) {
+                    std::thread::yield_now();
+                }
+                if fo3.worker_ops.load(Ordering::SeqCst) >= start + 6 {
+                    fo3.gate_progress.fetch_add(1, Ordering::SeqCst);
+                }
+                living
+            });
+            match res {
+                Ok(r) => fo2.deleted.lock().unwrap().extend(r.deleted_files.iter().map(|p| p.to_string_lossy().to_string())),
+                Err(e) => fo2.problems.lock().unwrap().push(("C10:forced-gc-error".into(), format!("{e}"))),
+            }
+            fo2.busy.store(false, Ordering::SeqCst);
+        });
+        if let Ok(h) = h {
+            fo.threads.lock().unwrap().push(h);
+            // wait until GC has computed the living set (or has finished)
+            let _ = rx.recv_timeout(Duration::from_secs(5));
+        } else {
+            fo.busy.store(false, Ordering::SeqCst);
+        }
+    })
+}
+
+fn check_history(ctx: &mut Ctx, h: &Hist, force: Option<(u64, u64)>) {
+    let hist_json = h.to_json();
+    let case = json!({"kind": "history", "history": hist_json, "force": force.map(|(s, p)| vec![s, p])});
+    let vdir = VDir::new();
+    let fo = Arc::new(Forcer {
+        index: Mutex::new(None),
+        busy: AtomicBool::new(false),
+        worker_ops: AtomicU64::new(0),
+        stride: force.map(|f| f.0).unwrap_or(1),
+        phase: force.map(|f| f.1).unwrap_or(0),
+        forced: AtomicU64::new(0),
+        gate_progress: AtomicU64::new(0),
+        transient: AtomicU64::new(0),
+        deleted: Mutex::new(vec![]),
+        problems: Mutex::new(vec![]),
+        threads: Mutex::new(vec![]),
+        enabled: AtomicBool::new(force.is_some()),
+    });
+    vdir.set_hook(Some(make_hook(fo.clone())));
+    // quiescent points observed during the run (checked after, on snapshots taken here)
+    let merges_may_run = h.merge_policy || h.steps.iter().any(|s| matches!(s, Step::Merge { wait: false }));
+    let mut snapshots: Vec<(Point, BTreeSet<String>, Vec<u8>, Option<BTreeSet<String>>, BTreeSet<String>)> = vec![];
+    let fo_obs = fo.clone();
+    let vd = vdir.clone();
+    let mut end_gc_err: Option<String> = None;
+    let mut stray_at_end = 0usize;
+    let forced = force.is_some();
+    let run = catch_unwind(AssertUnwindSafe(|| {
+        c01::run_history(h, &vdir, &mut |pt, index, _w, _ids| {
+            if pt == Point::Created {
+                *fo_obs.index.lock().unwrap() = Some(index.clone());
+            }
+            // the real GC runs on a writer's updater thread, whose segment manager keeps the
+            // committed metas alive; without a writer there is nobody to run it
+            if pt == Point::WriterDropping {
+                fo_obs.enabled.store(false, Ordering::SeqCst);
+                while fo_obs.busy.load(Ordering::SeqCst) {
+                    std::thread::yield_now();
+                }
+            }
+            if pt == Point::WriterReady && forced {
+                fo_obs.enabled.store(true, Ordering::SeqCst);
+            }
+            let quiescent = match pt {
+                Point::CommitReturned => !merges_may_run && !forced,
+                Point::End => true,
+                _ => false,
+            };
+            if quiescent {
+                if pt == Point::End {
+                    // forced collections still running belong to the history
+                    fo_obs.enabled.store(false, Ordering::SeqCst);
+                    let hs: Vec<_> = fo_obs.threads.lock().unwrap().drain(..).collect();
+                    for t in hs {
+                        let _ = t.join();
+                    }
+                    // quiescence of the property = commit returned, merges finished AND one
+                    // collection has run (a discarded merge leaves its output for the next GC)
+                    match index.writer_with_num_threads::<tantivy::TantivyDocument>(1, 15_000_000) {
+                        Ok(w) => {
+                            // "merges have finished": `wait_merging_threads` returns when the merge
+                            // operations are dropped, which can be a moment before a finishing merge
+                            // thread lets go of its last SegmentMeta clone; wait until the inventory
+                            // protects nothing but committed segments
+                            let t0 = Instant::now();
+                            loop {
+                                let committed: HashSet<PathBuf> = index.searchable_segment_metas().map(|ms| ms.iter().flat_map(|m| { let mut f = m.list_files(); f.extend(SEG_SUFFIXES.iter().map(|s| PathBuf::from(format!("{}{s}", m.id().uuid_string())))); f }).collect()).unwrap_or_default();
+                                let living = tantivy::verif::c10_living_files(index);
+                                let stray: Vec<&PathBuf> = living.iter().filter(|p| !committed.contains(*p) && !committed.iter().any(|c| same_segment(c, p))).collect();
+                                if stray.is_empty() {
+                                    break;
+                                }
+                                if t0.elapsed() > Duration::from_millis(1500) {
+                                    stray_at_end = stray.len();
+                                    break;
+                                }
+                                std::thread::sleep(Duration::from_millis(2));
+                            }
+                            let r = w.garbage_collect_files().wait();
+                            if std::env::var("C10_DEBUG").is_ok() {
+                                let mut l: Vec<String> = tantivy::verif::c10_living_files(index).iter().map(|p| p.to_string_lossy()[..6].to_string()).collect();
+                                l.sort();
+                                l.dedup();
+                                eprintln!("END GC: {:?}; living segments {:?}; searchable {:?}", r.map(|g| g.deleted_files.len()), l, index.searchable_segment_ids());
+                            }
+                            drop(w);
+                        }
+                        Err(e) => end_gc_err = Some(format!("{e}")),
+                    }
+                }
+                let d = listing(&vd, &[]);
+                let meta = vd.raw(Path::new(c01::META)).unwrap_or_default();
+                let mj = managed_json(&vd).ok();
+                let mem: BTreeSet<String> = index.directory().list_managed_files().iter().map(|p| p.to_string_lossy().to_string()).collect();
+                snapshots.push((pt, d, meta, mj, mem));
+            }
+        })
+    }));
+    vdir.set_hook(None);
+    *fo.index.lock().unwrap() = None;
+    let run = match run {
+        Ok(r) => r,
+        Err(_) => {
+            ctx.report.violation("oracle", "C10:history-panic", "tantivy panicked while running the history".into(), case);
+            return;
+        }
+    };
+    ctx.report.count_n("ramdirectory-resurrected-after-unlink", resurrected(&vdir, &[]) as u64);
+    let nforced = fo.forced.load(Ordering::SeqCst);
+    ctx.report.count_n("forced-gc", nforced);
+    ctx.report.count_n("forced-gc:worker-ran-on-inside-gate", fo.gate_progress.load(Ordering::SeqCst));
+    ctx.report.count_n("forced-gc:files-deleted", fo.deleted.lock().unwrap().len() as u64);
+    ctx.report.count_n("worker-storage-ops", fo.worker_ops.load(Ordering::SeqCst));
+    ctx.report.count_n("delete-of-file-listed-only-by-a-transient-meta", fo.transient.load(Ordering::SeqCst));
+    if fo.problems.lock().unwrap().is_empty() {
+        // the discipline of C10_gc_safe (registration-before-create) and its conclusion (no delete
+        // of a living file) were observed at every open_write / delete of this real trace
+        ctx.report.traces_validated_against_impl += 1;
+    }
+    for (key, what) in fo.problems.lock().unwrap().drain(..) {
+        ctx.report.violation("oracle", &key, what, case.clone());
+    }
+    for e in &run.errors {
+        ctx.report.violation("oracle", "C10:history-op-failed", e.clone(), case.clone());
+    }
+    if stray_at_end > 0 {
+        ctx.report.count("end:live-metas-of-uncommitted-segments-never-released");
+    }
+    if let Some(e) = end_gc_err {
+        ctx.report.violation("oracle", "C10:history-op-failed", format!("writer for the final collection: {e}"), case.clone());
+    }
+    // no open_read of a (non-lock) file failed during the run
+    for r in &run.log {
+        if r.kind == OpKind::OpenRead && !r.ok && !c01::is_lock_file(&r.path) {
+            ctx.report.violation("oracle", "C10:open-read-of-needed-file-failed", format!("open_read {} by {} failed (op #{})", r.path, r.thread, r.seq), case.clone());
+        }
+    }
+    let canon = format!("{}|{:?}", hist_json, force);
+    let nontrivial = h.steps.iter().any(|s| matches!(s, Step::Rollback | Step::Merge { .. } | Step::Reopen { .. } | Step::DeleteAll | Step::DelGrp(_))) || force.is_some();
+    ctx.report.case(&canon, nontrivial);
+    for s in &h.steps {
+        match s {
+            Step::Rollback => ctx.report.count("step:rollback"),
+            Step::Merge { .. } => ctx.report.count("step:merge"),
+            Step::Reopen { .. } => ctx.report.count("step:reopen"),
+            Step::DeleteAll => ctx.report.count("step:delete-all"),
+            Step::Gc => ctx.report.count("step:gc"),
+            Step::Commit => ctx.report.count("step:commit"),
+            _ => {}
+        }
+    }
+    // quiescent equalities on the snapshots
+    for (pt, d, meta, mj, mem) in &snapshots {
+        let what = format!("{pt:?}");
+        let files = match c01::meta_refs(meta) {
+            Ok((_, f)) => f,
+            Err(e) => {
+                ctx.report.violation("oracle", "C10:meta-json-unreadable", format!("{what}: {e}"), case.clone());
+                continue;
+            }
+        };
+        let mut expected: BTreeSet<String> = files.into_iter().collect();
+        expected.insert(c01::META.into());
+        expected.insert(c01::MANAGED.into());
+        expected.extend(d.iter().filter(|p| c01::is_lock_file(p)).cloned());
+        let orphans: Vec<&String> = d.difference(&expected).collect();
+        let missing: Vec<&String> = expected.difference(d).collect();
+        let mut ok = true;
+        if !missing.is_empty() {
+            ok = false;
+            ctx.report.violation("oracle", "C10:needed-file-missing", format!("{what}: files referenced by meta.json do not exist: {missing:?}"), case.clone());
+        }
+        if !orphans.is_empty() {
+            ok = false;
+            let first = orphans[0].clone();
+            let hist: Vec<String> = run.log.iter().filter(|r| r.path == first && r.kind != OpKind::Write).map(|r| format!("#{} {} {}", r.seq, r.thread, r.kind.name())).collect();
+            let metas: Vec<String> = run.log.iter().filter(|r| r.path == c01::META && r.kind == OpKind::AtomicWrite).map(|r| format!("#{} {}", r.seq, r.thread)).collect();
+            let dels: Vec<String> = run.log.iter().filter(|r| r.kind == OpKind::Delete && !c01::is_lock_file(&r.path)).map(|r| format!("#{}", r.seq)).collect();
+            ctx.report.violation("oracle", "C10:orphan-files", format!("{what}: files of no committed segment remain: {orphans:?}; ops on {first}: {hist:?}; meta.json writes: {metas:?}; gc deletes: {dels:?}; acks at log positions {:?}", run.acks), case.clone());
+        }
+        let existing: BTreeSet<String> = d.iter().filter(|p| !is_dot(p)).cloned().collect();
+        if mj.as_ref() != Some(&existing) {
+            ok = false;
+            ctx.report.violation("oracle", "C10:managed-json-differs", format!("{what}: .managed.json = {mj:?}, existing managed files = {existing:?}"), case.clone());
+        }
+        if *mem != existing {
+            ok = false;
+            ctx.report.violation("oracle", "C10:managed-set-differs", format!("{what}: in-memory managed set {mem:?} vs existing {existing:?}"), case.clone());
+        }
+        ctx.report.count(&format!("quiescent:{what}:{}", if ok { "ok" } else { "failed" }));
+    }
+    // content after everything (forced GC must not have damaged a committed segment)
+    let (_, f) = c01::schema();
+    let last = run.expected.iter().next_back().map(|(_, v)| v.clone()).unwrap_or_default();
+    let has_delete_all = h.steps.contains(&Step::DeleteAll);
+    match catch_unwind(AssertUnwindSafe(|| Index::open(vdir.inner.clone()).map_err(|e| e.to_string()).and_then(|i| c01::dump_ids(&i, &f)))) {
+        Ok(Ok(ids)) => {
+            if !has_delete_all && ids != last {
+                ctx.report.violation("oracle", "C10:content-damaged", format!("after the history: expected ids {last:?}, found {ids:?}"), case.clone());
+            }
+        }
+        Ok(Err(e)) => ctx.report.violation("oracle", "C10:index-unreadable-after-history", e, case.clone()),
+        Err(_) => ctx.report.violation("oracle", "C10:index-unreadable-after-history", "panic".into(), case.clone()),
+    }
+    if ctx.report.samples.len() < 2 && nontrivial {
+        ctx.report.sample(json!({"history": hist_json, "forced_gc": nforced, "quiescent_points": snapshots.len(), "final_files": snapshots.last().map(|s| s.1.len())}));
+    }
+}
+
+// ------------------------------------------------------------------------------------------
+// C: one collection vs the model
+// ------------------------------------------------------------------------------------------
+
+fn check_gc_vs_model(ctx: &mut Ctx, fail_some: bool) {
+    let mut rng = ctx.rng.fork();
+    let (schema, f) = c01::schema();
+    let vdir = VDir::new();
+    let index = Index::create(vdir.clone(), schema, Default::default()).unwrap();
+    tantivy::verif::set_segment_cut_docs(1 + rng.below(3) as u32);
+    let mut w: IndexWriter = index.writer_with_num_threads(1 + rng.usize_below(2), 30_000_000).unwrap();
+    w.set_merge_policy(Box::new(NoMergePolicy));
+    let mut id = 1u64;
+    let mut add = |w: &mut IndexWriter, n: u64| {
+        for _ in 0..n {
+            w.add_document(doc!(f.id => id, f.grp => c01::grp_of(id), f.body => "gc model")).unwrap();
+            id += 1;
+        }
+    };
+    add(&mut w, 2 + rng.below(4));
+    w.commit().unwrap();
+    if rng.chance(1, 2) {
+        w.delete_term(tantivy::Term::from_field_u64(f.grp, rng.below(5)));
+        add(&mut w, 1);
+        w.commit().unwrap();
+    }
+    // garbage: uncommitted segments dropped by a rollback (rollback does not collect)
+    add(&mut w, 2 + rng.below(4));
+    w.rollback().unwrap();
+    if rng.chance(1, 2) {
+        add(&mut w, 2);
+        w.rollback().unwrap();
+    }
+    tantivy::verif::set_segment_cut_docs(0);
+    // quiescent: workers idle, nothing in flight
+    let case = json!({"kind": "gc-vs-model", "seed": ctx.seed, "fail_some": fail_some});
+    let d0 = listing(&vdir, &[]);
+    let m0: BTreeSet<String> = index.directory().list_managed_files().iter().map(|p| p.to_string_lossy().to_string()).collect();
+    let living: BTreeSet<String> = tantivy::verif::c10_living_files(&index).iter().map(|p| p.to_string_lossy().to_string()).collect();
+    let mut names: Vec<String> = vec![c01::META.to_string()];
+    let mut intern: HashMap<String, usize> = HashMap::new();
+    intern.insert(c01::META.to_string(), 0);
+    let mut idof = |s: &String, names: &mut Vec<String>| -> usize {
+        if let Some(i) = intern.get(s) {
+            return *i;
+        }
+        names.push(s.clone());
+        intern.insert(s.clone(), names.len() - 1);
+        names.len() - 1
+    };
+    let d_ids: Vec<usize> = d0.iter().filter(|p| !is_dot(p)).map(|p| idof(p, &mut names)).collect();
+    let m_ids: Vec<usize> = m0.iter().map(|p| idof(p, &mut names)).collect();
+    let l_ids: Vec<usize> = living.iter().map(|p| idof(p, &mut names)).collect();
+    let to_delete: Vec<String> = m0.iter().filter(|p| !living.contains(*p) && p.as_str() != c01::META).cloned().collect();
+    let mut fails: Vec<String> = vec![];
+    if fail_some && !to_delete.is_empty() {
+        let k = 1 + rng.usize_below(to_delete.len().min(3));
+        let mut td = to_delete.clone();
+        rng.shuffle(&mut td);
+        fails = td.into_iter().take(k).collect();
+    }
+    let fail_set: HashSet<String> = fails.iter().cloned().collect();
+    let f_ids: Vec<usize> = fails.iter().map(|p| idof(p, &mut names)).collect();
+    let nl = crate::model::nat_list;
+    let req = format!("C10 gc {} {} {} {}", nl(&d_ids), nl(&m_ids), nl(&l_ids), nl(&f_ids));
+    let model = ctx.model.ask(&req);
+    let model_steps = ctx.model.ask(&req.replacen("C10 gc", "C10 steps", 1));
+    // the real collection; failing deletes are injected by VDir's fault filter
+    *FAIL_PATHS.lock().unwrap() = Some(fail_set.clone());
+    vdir.with_state(|s| {
+        s.fault_filter = Some(fail_filter);
+        s.fail_at = Some((0, true));
+        s.faultable_seen = 0;
+    });
+    let res = w.garbage_collect_files().wait();
+    vdir.with_state(|s| {
+        s.fail_at = None;
+        s.fault_filter = None;
+    });
+    *FAIL_PATHS.lock().unwrap() = None;
+    let (deleted, failed): (BTreeSet<String>, BTreeSet<String>) = match &res {
+        Ok(r) => (
+            r.deleted_files.iter().map(|p| p.to_string_lossy().to_string()).collect(),
+            r.failed_to_delete_files.iter().map(|p| p.to_string_lossy().to_string()).collect(),
+        ),
+        Err(e) => {
+            ctx.report.violation("oracle", "C10:gc-error", format!("garbage_collect_files: {e}"), case);
+            return;
+        }
+    };
+    let d1: BTreeSet<String> = listing(&vdir, &[]).into_iter().filter(|p| !is_dot(p)).collect();
+    let m1: BTreeSet<String> = index.directory().list_managed_files().iter().map(|p| p.to_string_lossy().to_string()).collect();
+    let show = |s: &BTreeSet<String>, names: &mut Vec<String>, idof: &mut dyn FnMut(&String, &mut Vec<String>) -> usize| -> String {
+        let mut v: Vec<usize> = s.iter().map(|p| idof(p, names)).collect();
+        v.sort();
+        nl(&v)
+    };
+    let real = format!("{}|{}|{}|{}", show(&d1, &mut names, &mut idof), show(&m1, &mut names, &mut idof), show(&deleted, &mut names, &mut idof), show(&failed, &mut names, &mut idof));
+    ctx.report.case(&format!("gc|{req}"), !to_delete.is_empty());
+    ctx.report.count(if fails.is_empty() { "gc-vs-model:no-failures" } else { "gc-vs-model:with-failing-deletes" });
+    ctx.report.count_n("gc-vs-model:garbage-files", to_delete.len() as u64);
+    if real != model {
+        ctx.report.violation("model", "C10:gc-result-differs-from-model", format!("real dir|managed|deleted|failed = {real}; model fullGC = {model} (request {req})"), case.clone());
+    }
+    if model_steps != format!("{model}|safe") {
+        ctx.report.violation("model", "C10:model-small-step-differs", format!("fullGC = {model}, fullGCSteps = {model_steps}"), case.clone());
+    }
+    // oracle on the implementation alone: failed deletes stay managed and on disk; the rest is clean
+    for p in &fails {
+        if !m1.contains(p) || !d1.contains(p) {
+            ctx.report.violation("oracle", "C10:failed-delete-forgotten", format!("{p}: delete failed but the file is no longer managed / listed"), case.clone());
+        }
+    }
+    if let Ok(mj) = managed_json(&vdir) {
+        if mj != m1 {
+            ctx.report.violation("oracle", "C10:managed-json-differs", format!(".managed.json {mj:?} vs in-memory {m1:?} after GC"), case.clone());
+        }
+    }
+    // a second collection without faults removes what was left
+    if !fails.is_empty() {
+        let _ = w.garbage_collect_files().wait();
+        check_quiescent(ctx, &vdir, &index, "after the retry collection", &case);
+    } else {
+        check_quiescent(ctx, &vdir, &index, "after one collection", &case);
+    }
+    drop(w);
+}
+
+/// deletes that the instrumented directory makes fail with an I/O error (VDir's fault filter is
+/// a plain fn pointer, hence the static)
+static FAIL_PATHS: Mutex<Option<HashSet<String>>> = Mutex::new(None);
+
+fn fail_filter(k: OpKind, p: &str) -> bool {
+    k == OpKind::Delete && FAIL_PATHS.lock().unwrap().as_ref().map(|s| s.contains(p)).unwrap_or(false)
+}
+
+// ------------------------------------------------------------------------------------------
+// D: a reader in the middle of loading
+// ------------------------------------------------------------------------------------------
+
+fn check_reader_window(ctx: &mut Ctx) {
+    let mut rng = ctx.rng.fork();
+    let (schema, f) = c01::schema();
+    let vdir = VDir::new();
+    let index = Index::create(vdir.clone(), schema, Default::default()).unwrap();
+    tantivy::verif::set_segment_cut_docs(1);
+    let mut w: IndexWriter = index.writer_with_num_threads(1, 15_000_000).unwrap();
+    w.set_merge_policy(Box::new(NoMergePolicy));
+    let n = 2 + rng.below(3);
+    for id in 1..=n {
+        w.add_document(doc!(f.id => id, f.grp => c01::grp_of(id), f.body => "reader window")).unwrap();
+    }
+    w.commit().unwrap();
+    tantivy::verif::set_segment_cut_docs(0);
+    let case = json!({"kind": "reader-window", "seed": ctx.seed});
+    // the reader: META_LOCK, then the list of segments, as IndexReader::open_segment_readers does
+    let lock = match index.directory().acquire_lock(&META_LOCK) {
+        Ok(l) => l,
+        Err(e) => {
+            ctx.report.violation("oracle", "C10:meta-lock-unavailable", format!("{e:?}"), case);
+            return;
+        }
+    };
+    let metas = index.searchable_segment_metas().unwrap();
+    let files: Vec<PathBuf> = metas.iter().flat_map(|m| m.list_files()).filter(|p| vdir.inner.exists(p).unwrap_or(false)).collect();
+    let ids = index.searchable_segment_ids().unwrap();
+    drop(metas); // the reader process holds no SegmentMeta of the writer's inventory
+    // the writer meanwhile merges everything away, commits and collects
+    let t = std::thread::spawn(move || {
+        let r = w.merge(&ids).wait().map(|_| ()).map_err(|e| e.to_string());
+        let r2 = w.commit().map(|_| ()).map_err(|e| e.to_string());
+        let r3 = w.garbage_collect_files().wait().map(|_| ()).map_err(|e| e.to_string());
+        (w, r, r2, r3)
+    });
+    std::thread::sleep(Duration::from_millis(180));
+    let mut gone = vec![];
+    for p in &files {
+        if index.directory().open_read(p).is_err() {
+            gone.push(p.to_string_lossy().to_string());
+        }
+    }
+    ctx.report.case("reader-window", true);
+    ctx.report.count("reader-window");
+    if !gone.is_empty() {
+        ctx.report.violation("oracle", "C10:reader-files-collected-under-meta-lock", format!("files of the segments a loading reader listed were deleted while it held META_LOCK: {gone:?}"), case.clone());
+    }
+    drop(lock);
+    let (w, r, r2, r3) = t.join().unwrap();
+    for e in [r, r2, r3].into_iter().filter_map(|x| x.err()) {
+        ctx.report.violation("oracle", "C10:history-op-failed", e, case.clone());
+    }
+    let _ = w.wait_merging_threads();
+    // once the reader is done the merged-away segments are collected
+    let w2: IndexWriter = index.writer_with_num_threads(1, 15_000_000).unwrap();
+    w2.set_merge_policy(Box::new(NoMergePolicy));
+    let _ = w2.garbage_collect_files().wait();
+    check_quiescent(ctx, &vdir, &index, "after the reader released META_LOCK", &case);
+}
+
+// ------------------------------------------------------------------------------------------
+// E: recovered crash images + one commit + one collection
+// ------------------------------------------------------------------------------------------
+
+fn after_crash(files: &c01::Files) -> Result<(BTreeSet<String>, BTreeSet<String>), String> {
+    let ram = RamDirectory::create();
+    for (n, b) in files {
+        ram.atomic_write(Path::new(n), b).map_err(|e| e.to_string())?;
+    }
+    let vdir = VDir::wrap(ram);
+    let (_, f) = c01::schema();
+    let index = Index::open(vdir.clone()).map_err(|e| format!("open: {e}"))?;
+    let mut w: IndexWriter = index.writer_with_num_threads(1, 15_000_000).map_err(|e| format!("writer: {e}"))?;
+    w.set_merge_policy(Box::new(NoMergePolicy));
+    w.add_document(doc!(f.id => 777u64, f.grp => 0u64, f.body => "after crash")).map_err(|e| e.to_string())?;
+    w.commit().map_err(|e| format!("commit: {e}"))?;
+    w.garbage_collect_files().wait().map_err(|e| format!("gc: {e}"))?;
+    w.wait_merging_threads().map_err(|e| e.to_string())?;
+    let extra: Vec<String> = files.keys().cloned().collect();
+    let d = listing(&vdir, &extra);
+    let meta = vdir.raw(Path::new(c01::META)).ok_or("meta.json missing")?;
+    let (_, refs) = c01::meta_refs(&meta)?;
+    let mut expected: BTreeSet<String> = refs.into_iter().collect();
+    expected.insert(c01::META.into());
+    expected.insert(c01::MANAGED.into());
+    Ok((d, expected))
+}
+
+fn check_after_crash(ctx: &mut Ctx) {
+    let h = Hist { threads: 1, merge_policy: false, cut_docs: 2, steps: vec![Step::Add(1), Step::Add(2), Step::Add(3), Step::Commit, Step::Add(4), Step::DelGrp(1), Step::Commit, Step::Add(5), Step::Rollback, Step::Add(6), Step::Commit] };
+    let vdir = VDir::new();
+    vdir.with_state(|s| s.record_data = true);
+    let run = c01::run_history(&h, &vdir, &mut |_, _, _, _| {});
+    let trace = match c01::tokenize(&run) {
+        Ok(t) => t,
+        Err(e) => {
+            ctx.report.violation("model", "C10:trace-not-representable", e, json!({"kind":"after-crash"}));
+            return;
+        }
+    };
+    // boundaries right after a file creation (managed rename pending, create pending) and a few others
+    let mut ks: Vec<usize> = (trace.base_tok + 1..=trace.toks.len()).filter(|k| trace.toks[k - 1].starts_with('c')).collect();
+    let others: Vec<usize> = (trace.base_tok + 1..=trace.toks.len()).filter(|k| { let t = &trace.toks[k - 1]; t.starts_with('t') || t == "s" || t.starts_with('k') }).collect();
+    let budget = ctx.budget(40, 400) as usize;
+    let mut rng = ctx.rng.fork();
+    rng.shuffle(&mut ks);
+    ks.truncate(budget / 2);
+    let mut o = others;
+    rng.shuffle(&mut o);
+    ks.extend(o.into_iter().take(budget / 4));
+    ks.sort();
+    let resp = ctx.model.ask(&format!("C01 images {} {}", ks.iter().map(|k| k.to_string()).collect::<Vec<_>>().join(","), trace.line()));
+    let bounds = match c01::parse_images(&resp) {
+        Ok(b) => b,
+        Err(e) => {
+            ctx.report.violation("model", "C10:model-images-unparsable", e, json!({"kind":"after-crash"}));
+            return;
+        }
+    };
+    let mut seen = HashSet::new();
+    let mut evaluated = 0usize;
+    for b in &bounds {
+        let applied = b.images.iter().find(|d| d.kind == 0).cloned();
+        for d in &b.images {
+            // keep to images the C01 oracle accepts with certainty: meta.json is the visible version
+            let meta_visible = applied.as_ref().map(|a| a.atoms.iter().find(|x| x.0 == 0) == d.atoms.iter().find(|x| x.0 == 0)).unwrap_or(false);
+            if !meta_visible || evaluated >= budget * 3 {
+                continue;
+            }
+            let files = c01::materialize(d, &trace, &run.log);
+            let mut canon = String::new();
+            for (n, v) in &files {
+                canon.push_str(&format!("{n}:{}:{:x};", v.len(), crate::report::fnv(v)));
+            }
+            if !seen.insert(crate::report::fnv(canon.as_bytes())) {
+                continue;
+            }
+            evaluated += 1;
+            let managed_in_image: BTreeSet<String> = files.get(c01::MANAGED).and_then(|b| serde_json::from_slice::<Vec<String>>(b).ok()).map(|v| v.into_iter().collect()).unwrap_or_default();
+            let unmanaged_present: BTreeSet<String> = files.keys().filter(|n| !is_dot(n) && !managed_in_image.contains(*n)).cloned().collect();
+            let case = json!({"kind": "after-crash-image", "files": files.iter().map(|(k, v)| (k.clone(), serde_json::Value::String(crate::model::hex(v)))).collect::<serde_json::Map<_, _>>()});
+            let desc = format!("{} {} at boundary {}", c01::kind_name(d.kind), trace.names.get(d.subject).cloned().unwrap_or_default(), b.k);
+            ctx.report.case(&format!("crash|{canon}"), d.kind != 0);
+            ctx.report.count(&format!("after-crash:image-kind:{}", c01::kind_name(d.kind)));
+            match catch_unwind(AssertUnwindSafe(|| after_crash(&files))) {
+                Ok(Ok((dir, expected))) => {
+                    let orphans: BTreeSet<String> = dir.difference(&expected).cloned().collect();
+                    let missing: Vec<&String> = expected.difference(&dir).collect();
+                    if !missing.is_empty() {
+                        ctx.report.violation("oracle", "C10:needed-file-missing-after-crash", format!("{desc}: {missing:?}"), case.clone());
+                    }
+                    if orphans.is_empty() {
+                        ctx.report.count(if unmanaged_present.is_empty() { "after-crash:clean (every existing file was listed in the image's .managed.json)" } else { "after-crash:clean" });
+                    } else if !unmanaged_present.is_empty() && orphans.iter().all(|o| unmanaged_present.contains(o)) {
+                        // S2 signature: the hypothesis of C10_after_crash_partial fails (a file
+                        // exists that the image's .managed.json does not list) and exactly those
+                        // files are what remains
+                        ctx.report.violation("oracle", K_S2, format!("{desc}: {orphans:?} exist in the crash image but not in its .managed.json (rename not synced, creation applied); they survive recovery + commit + GC"), case.clone());
+                    } else {
+                        ctx.report.violation("oracle", "C10:orphan-after-crash", format!("{desc}: orphans {orphans:?} (unmanaged in the image: {unmanaged_present:?})"), case.clone());
+                    }
+                }
+                Ok(Err(e)) => ctx.report.violation("oracle", "C10:recovery-failed", format!("{desc}: {e}"), case.clone()),
+                Err(_) => ctx.report.violation("oracle", "C10:recovery-failed", format!("{desc}: panic"), case.clone()),
+            }
+        }
+    }
+}
+
+fn replay(ctx: &mut Ctx, case: &serde_json::Value) {
+    match case["kind"].as_str().unwrap_or("") {
+        "history" => {
+            if let Some(h) = Hist::from_json(&case["history"]) {
+                let force = case["force"].as_array().and_then(|a| Some((a.first()?.as_u64()?, a.get(1)?.as_u64()?)));
+                check_history(ctx, &h, force);
+            }
+        }
+        "after-crash-image" => {
+            let mut files = c01::Files::new();
+            if let Some(o) = case["files"].as_object() {
+                for (k, v) in o {
+                    files.insert(k.clone(), crate::model::unhex(v.as_str().unwrap_or("-")).unwrap_or_default());
+                }
+            }
+            ctx.report.case("replay", true);
+            match after_crash(&files) {
+                Ok((dir, expected)) => {
+                    let orphans: Vec<&String> = dir.difference(&expected).collect();
+                    ctx.report.notes.push(format!("replay: orphans {orphans:?}"));
+                    if !orphans.is_empty() {
+                        ctx.report.violation("oracle", K_S2, format!("orphans after recovery + commit + GC: {orphans:?}"), case.clone());
+                    }
+                }
+                Err(e) => ctx.report.violation("oracle", "C10:recovery-failed", e, case.clone()),
+            }
+        }
+        "gc-vs-model" => check_gc_vs_model(ctx, case["fail_some"].as_bool().unwrap_or(false)),
+        "reader-window" => check_reader_window(ctx),
+        k => ctx.report.notes.push(format!("replay kind {k:?} unknown")),
+    }
+}
 
 pub fn run(ctx: &mut Ctx) {
-    ctx.report.notes.push("C10: harness not built yet".into());
+    ctx.report.rule = "cases = histories (with or without GC forced at worker storage operations), single collections compared \
+        with the model, reader windows, recovered crash images; non-trivial = the history contains a rollback / merge / \
+        delete / delete_all / writer restart or forced GC, the collection has garbage to remove, the image differs from the live directory".into();
+    ctx.report.correspondence_obligations = vec![
+        "quiescent: directory = files of meta.json's segments + meta.json + .managed.json + lock files".into(),
+        "quiescent: .managed.json = in-memory managed set = existing non-dot files".into(),
+        "registration-before-create: every file opened for writing is listed by a live SegmentMeta at that instant (hook c10_living_files)".into(),
+        "no delete hits a file a live SegmentMeta lists; no open_read of a non-lock file fails; content intact with GC forced at worker operations".into(),
+        "one collection: real (directory, managed, deleted, failed) = model fullGC = model small-step run, incl. failing deletes".into(),
+        "a reader holding META_LOCK keeps its segment files while merge + commit + GC run".into(),
+        "recovered crash image + commit + GC: no orphan unless a file exists that the image's .managed.json lacks (S2)".into(),
+    ];
+    if let Some(case) = ctx.replay.clone() {
+        replay(ctx, &case);
+        return;
+    }
+    let thorough = ctx.thorough();
+    // A: plain histories
+    for _ in 0..ctx.budget(100, 800) {
+        let mut rng = ctx.rng.fork();
+        let h = c01::gen_hist(&mut rng, if thorough { 50 } else { 24 }, true);
+        check_history(ctx, &h, None);
+    }
+    // B: forced GC
+    for i in 0..ctx.budget(80, 600) {
+        let mut rng = ctx.rng.fork();
+        let mut h = c01::gen_hist(&mut rng, if thorough { 40 } else { 20 }, true);
+        if i % 2 == 0 {
+            h.cut_docs = 1; // back-to-back segments: new files appear while GC is gated
+        }
+        let stride = *rng.pick(&[3u64, 5, 7, 11, 17]);
+        let phase = rng.below(stride);
+        check_history(ctx, &h, Some((stride, phase)));
+    }
+    // C
+    for i in 0..ctx.budget(40, 300) {
+        guarded(ctx, "one collection vs model", |c| check_gc_vs_model(c, i % 2 == 1));
+    }
+    // D
+    for _ in 0..ctx.budget(4, 20) {
+        guarded(ctx, "reader window", check_reader_window);
+    }
+    // E
+    guarded(ctx, "recovered crash images", check_after_crash);
+}
+
+/// a scenario whose own `unwrap`s hit an error of the code under test (or a panic of it) is a
+/// witnessed failure of the implementation, not a crash of the harness
+fn guarded(ctx: &mut Ctx, what: &str, f: impl FnOnce(&mut Ctx)) {
+    let r = catch_unwind(AssertUnwindSafe(|| f(ctx)));
+    tantivy::verif::set_segment_cut_docs(0);
+    if r.is_err() {
+        ctx.report.violation("oracle", "C10:scenario-failed", format!("{what}: an index operation that must succeed failed or panicked (add / commit / rollback / merge / open)"), json!({"kind": "scenario", "what": what}));
+    }
 }
